@@ -170,8 +170,8 @@ def overlay():
             os.rename(tmp, tree)
         else:
             os.utime(tree)
-        _prune("tree-", 4)
-        _prune("ext-", 4)
+        _prune("tree-", 12)
+        _prune("ext-", 12)
     return tree
 
 
